@@ -109,6 +109,7 @@ def main(tier):
                  [dict(stack="comp", offset=0, seed=seed() + 3),
                   dict(stack="comp", offset=5, seed=seed() + 4, entropy="low", level=0, pieces=[7, 1, 50]),
                   dict(stack="comp+enc", offset=3, seed=seed() + 5, level=11, level_of_model="prop"),
+                  dict(stack="comp", offset=0, seed=seed() + 8, entropy="struct", level=5),
                   dict(stack="raw", offset=9, seed=seed() + 6, level_of_model="prop")], ev)
     # code -> spec at PRODUCTION constants: targeted lengths, seeded seek/read histories, validated against ByteStream
     CH, BL = 131072, 4194304
